@@ -26,7 +26,11 @@ pub fn load(verif: &Path) -> Result<Vec<Entry>, String> {
     let p = verif.join("corpus/psim/manifest.json");
     let v: Value = serde_json::from_str(&std::fs::read_to_string(&p).map_err(|e| format!("{p:?}: {e}"))?).map_err(|e| format!("{p:?}: {e}"))?;
     let mut out = vec![];
-    for e in v["entries"].as_array().ok_or("entries")? {
+    // seeded generated grammars (psim/build.rs), sentences by construction
+    let gen: Value = serde_json::from_str(include_str!(concat!(env!("OUT_DIR"), "/gen_manifest.json"))).map_err(|e| format!("gen_manifest: {e}"))?;
+    let mut all: Vec<Value> = v["entries"].as_array().ok_or("entries")?.clone();
+    all.extend(gen["entries"].as_array().cloned().unwrap_or_default());
+    for e in &all {
         let mut sentences = vec![];
         for s in e["sentences"].as_array().cloned().unwrap_or_default() {
             sentences.push(Sentence { bytes: s["text"].as_str().unwrap_or("").as_bytes().to_vec(), valid: s["valid"].as_bool().unwrap_or(false) });
